@@ -9,6 +9,7 @@ CONSTANTS
   DSet = {}
   SliceSet = {}
   SortCols = {}
+  SeedSet = {0}
   DoEmit = FALSE
   PropOnly = TRUE
 CONSTRAINT Diag
